@@ -14,7 +14,7 @@ import zipfile
 from ..mon import Reach
 from ..ref_sem import Lang, AModel
 from ..result import Budget, digest
-from ..stream import gen_case, Built
+from ..stream import TooExpensive, gen_case, Built
 from ..gen_lang import Cfg
 from ..gen_model import MCfg, build_real
 from ..malprint import print_spec
@@ -63,6 +63,9 @@ def inprocess(case, res, count=True):
         d1 = canon(g1._to_dict())
         g2 = built.attack_graph()
         d2 = canon(g2._to_dict())
+    except TooExpensive:
+        res.count('skipped:too-expensive')
+        return None
     except Exception as exc:
         return ('attackgraph.generate:raised-%s' % type(exc).__name__, 'generation raised %r' % (exc,))
     if count:
@@ -94,7 +97,11 @@ def inprocess(case, res, count=True):
     if f:
         return f
     # a fresh generation after analysing another graph is still the same
-    g3 = built.attack_graph()
+    try:
+        g3 = built.attack_graph()
+    except TooExpensive:
+        res.count('skipped:too-expensive')
+        return None
     if canon(g3._to_dict()) != d2:
         return ('determinism:generation-after-analysis-differs', 'a graph generated after analysing another one differs')
     return None
@@ -223,6 +230,13 @@ def run(rng, res, tier, shard, nshards):
             case = gen_case(rng, Cfg(), MCfg(attackers=0.8, hostile_names=0.1), corelang_share=0.05)
             if not nontrivial_case(case):
                 continue
+            try:
+                Built(case, attackers=False).attack_graph(cpu_s=1.0)
+            except TooExpensive:
+                res.count('skipped:too-expensive')
+                continue
+            except Exception:
+                pass
             name = 'c%03d' % len(cases)
             try:
                 write_case_files(case, os.path.join(case_dir, name))
